@@ -83,9 +83,17 @@ def make_grid(gname, order):
 
     c = ctx(gname)
     metrics = {}
+    slots = [(c["vars"][i].axes, frozenset(c["vars"][i].dims)) for i in order]
+    distinct_slots = len(set(slots)) == len(slots)
     for i in order:
         v = c["vars"][i]
-        metrics.setdefault(v.axes, []).append(v.name)
+        key = v.axes
+        if key in metrics and (sum(order) + len(order)) % 2 == 0 and distinct_slots:
+            # (only when every variable has a slot of its own: a second variable for a taken slot under another key is a second
+            # registration, which is refused)
+            # the same axis set under a second spelling (other order of the names / a bare name): one registry entry
+            key = tuple(reversed(v.axes)) if len(v.axes) > 1 else v.axes[0]
+        metrics.setdefault(key, []).append(v.name)
     with warnings.catch_warnings():
         warnings.simplefilter("ignore")
         g = Grid(c["ds"], coords=S.grid_coords(GRIDS[gname]["lay"]), periodic=False, autoparse_metadata=False, metrics=metrics)
@@ -287,6 +295,18 @@ def check_derived(rec, gname, order, ai, ri, seed, g=None, reg=None):
             if not np.allclose(avc.values, 7.0, rtol=1e-12):
                 rec.violation("average", "constant-field", case, 7.0, avc.values)
                 return
+            # a field with missing values, in memory and dask-backed: the metric is summed over the valid points only
+            arrn = arr.astype(float).copy(deep=True)
+            arrn.values.flat[1 % arrn.size] = np.nan
+            arrn.values.flat[arrn.size - 1] = np.nan
+            valid = arrn.notnull()
+            ean = (arrn.fillna(0.0) * m).sum(sumdims) / mb.where(valid).sum(sumdims)
+            for lazy in ((False, True) if (ai + ri + sum(order)) % 3 == 0 else ()):
+                avn = g.average(arrn.chunk({d: 1 for d in arrn.dims[:1]}) if lazy else arrn, req)
+                rec.calls += 1
+                if set(avn.dims) != set(ean.dims) or not np.allclose(avn.transpose(*ean.dims).values, ean.values, rtol=1e-12, equal_nan=True):
+                    rec.violation("average", "missing-values:not-over-valid-data" + (":dask-backed" if lazy else ""), case, ean.values, avn.transpose(*ean.dims).values if set(avn.dims) == set(ean.dims) else list(avn.dims))
+                    return
         except Exception as e:
             rec.violation("integrate", "raise:" + exc_sig(e), case, "array", f"{type(e).__name__}: {e}"[:200])
             return
